@@ -421,13 +421,13 @@ impl Oracle {
     /// change, or None when the operation must fail and change nothing.
     pub fn apply(&mut self, op: &Op) -> Option<(usize, usize)> {
         match op {
-            Op::Alloc { t, len, allow } => self.push(*t, vec![0; *len], *allow),
+            Op::Alloc { t, len, allow } => if *len > self.n { None } else { self.push(*t, vec![0; *len], *allow) },
             Op::Init { t, size, allow } => self.push(*t, default_bytes(*size), *allow),
             Op::AllocPack { t, data, borsh, allow } => self.push(*t, var_enc(data, *borsh), *allow),
             Op::Realloc { t, len, rep } => {
                 let i = self.find(*t, *rep)?;
                 let old = self.es[i].1.len();
-                if *len > old && self.used() + (*len - old) > self.n {
+                if *len > old && self.used().saturating_add(*len - old) > self.n {
                     return None;
                 }
                 if *len as u64 >= 1u64 << 32 {
@@ -485,8 +485,13 @@ fn gen_len(rng: &mut Rng, free: usize) -> usize {
         5 => free + rng.range(2, 20) as usize,
         6 => *rng.pick(&TYPED_SIZES),
         7 => rng.below(70) as usize,
+        8 if rng.chance(1, 6) => huge_len(rng),
         _ => rng.below(12) as usize,
     }
+}
+/// lengths at which usize / u32 arithmetic would wrap
+fn huge_len(rng: &mut Rng) -> usize {
+    *rng.pick(&[usize::MAX, usize::MAX - 1, usize::MAX - 11, usize::MAX - 12, usize::MAX - 23, 1usize << 63, (1usize << 32) - 1, 1usize << 32, (1usize << 32) + 1, u32::MAX as usize - 12, usize::MAX / 2])
 }
 fn pick_entry(rng: &mut Rng, o: &Oracle, miss: bool) -> (usize, usize) {
     if o.es.is_empty() || miss {
@@ -544,6 +549,7 @@ pub fn gen_op(rng: &mut Rng, o: &Oracle, fail_bias: bool) -> Op {
                 8 => old / 2,
                 9 => old + rng.below(1 + free as u64) as usize,
                 10 if rng.chance(1, 20) => (1usize << 32) + rng.below(3) as usize - 1,
+                10 if rng.chance(1, 10) => huge_len(rng),
                 _ => rng.below(60) as usize,
             };
             Op::Realloc { t, len, rep }
@@ -912,6 +918,77 @@ fn corpus() -> Vec<(usize, Vec<Op>)> {
     c
 }
 
+/// a value whose advertised packed length does not fit the 32-bit length field
+pub struct HugeVar;
+impl SplDiscriminate for HugeVar {
+    const SPL_DISCRIMINATOR: ArrayDiscriminator = ArrayDiscriminator::new(TAGS[4]);
+}
+impl VariableLenPack for HugeVar {
+    fn pack_into_slice(&self, _dst: &mut [u8]) -> Result<(), ProgramError> {
+        Ok(())
+    }
+    fn unpack_from_slice(_src: &[u8]) -> Result<Self, ProgramError> {
+        Ok(HugeVar)
+    }
+    fn get_packed_len(&self) -> Result<usize, ProgramError> {
+        Ok((1usize << 32) + 3)
+    }
+}
+
+/// "length not representable" with room to spare: only a buffer of more than 4 GiB gets past
+/// the room checks, so this is the one place where the failing conversion of the length decides.
+/// The buffer is zero pages that are never touched beyond its first and last few KiB.
+pub fn huge_length_scenario(rep: &mut Report) {
+    if std::mem::size_of::<usize>() < 8 {
+        return;
+    }
+    const BIG: usize = (1usize << 32) + 8192;
+    let layout = std::alloc::Layout::from_size_align(BIG, 8).unwrap();
+    let p = unsafe { std::alloc::alloc_zeroed(layout) };
+    if p.is_null() {
+        rep.count("huge-length:skipped (no 4 GiB of address space)");
+        return;
+    }
+    {
+        let buf: &mut [u8] = unsafe { std::slice::from_raw_parts_mut(p, BIG) };
+        let _ = apply_op(buf, &Op::Alloc { t: 0, len: 16, allow: false });
+        let _ = apply_op(buf, &Op::Write { t: 0, rep: 0, seed: 7 });
+        let snap = |b: &[u8]| (b[..4096].to_vec(), b[BIG - 4096..].to_vec());
+        let ops: Vec<(&str, Option<Op>)> = vec![
+            ("realloc", Some(Op::Realloc { t: 0, len: 1usize << 32, rep: 0 })),
+            ("realloc-with-repetition", Some(Op::Realloc { t: 0, len: (1usize << 32) + 5, rep: 0 })),
+            ("alloc", Some(Op::Alloc { t: 1, len: 1usize << 32, allow: false })),
+            ("alloc-repeated", Some(Op::Alloc { t: 0, len: (1usize << 32) + 1, allow: true })),
+            ("alloc-and-pack", None),
+        ];
+        for (name, op) in ops {
+            let before = snap(buf);
+            let r: Res<()> = match &op {
+                Some(o) => apply_op(buf, o).map(|_| ()),
+                None => catch(|| -> Result<(), ProgramError> {
+                    let mut st = TlvStateMut::unpack(buf)?;
+                    st.alloc_and_pack_variable_len_entry(&HugeVar, rep.monitor_runs % 2 == 0)?;
+                    Ok(())
+                }),
+            };
+            let after = snap(buf);
+            let reopened = open_view(buf, View::Mut);
+            rep.count(&format!("huge-length:{}", name));
+            rep.monitor_runs += 1;
+            if !r.is_err() || before != after || !reopened.is_ok() {
+                let first_diff = before.0.iter().zip(after.0.iter()).position(|(a, b)| a != b);
+                rep.violate(&format!("huge-length:{}", name),
+                    "a length that does not fit the 32-bit length field must be refused with the buffer untouched and still openable (buffer of 4 GiB + 8 KiB, so the room checks pass)",
+                    serde_json::json!({"operation": name, "buffer_len": BIG, "result": format!("{:?}", r.kind()), "first_changed_offset": first_diff,
+                        "head_after": emit::hex(&after.0[..64]), "reopens": reopened.is_ok()}).to_string());
+                // restore for the next operation
+                buf[..4096].copy_from_slice(&before.0);
+            }
+        }
+    }
+    unsafe { std::alloc::dealloc(p, layout) };
+}
+
 pub fn run(ctx: &Ctx, prop: &str) -> Report {
     let mut rep = Report::new(prop);
     rep.corr_module = "Tlv".into();
@@ -927,6 +1004,9 @@ pub fn run(ctx: &Ctx, prop: &str) -> Report {
     }));
     for (n, ops) in corpus() {
         run_history(&mut rep, prop, &mut rng, n, 0, true, Some(&ops));
+    }
+    if prop == "C04" {
+        huge_length_scenario(&mut rep);
     }
     let n_coq = ctx.scale(2000, 30000);
     for i in 0..n_coq {
